@@ -231,6 +231,7 @@ func c18Directed() []Directed {
 func init() {
 	Register(&Engine{
 		ID:       "C18",
+		Anchors:  []string{"trace.go:Trace", "tree.go:Handler", "options.go:WithTrace", "method.go:buildMethods"},
 		Cases:    func(t string) int { return map[string]int{"quick": 600, "thorough": 45000}[t] },
 		Run:      runC18,
 		Directed: c18Directed,
